@@ -1541,6 +1541,7 @@ def run(chk, tier):
     from props import c10, c14
     chk.guard('C10.j', lambda: c10.rule_assign_constraints(chk, prog, tier))   # pointer-assignment compatibility and qualifier checks (6.5.16.1)
     chk.guard('C14.s', lambda: c14.rule_stringconcat(chk, prog, tier))        # element type of string literals, per target (wchar_t)
+    chk.guard('C10.z2', lambda: c10.rule_member_qualifiers(chk, prog, tier))   # the type of s.m / p->m carries the qualifiers of the object and of every anonymous struct or union on the way (6.5.2.3p3-4)
     chk.guard('C05.m', lambda: rule_value_category(chk, prog, tier))
     chk.guard('C05.n', lambda: rule_bitfield_values(chk, prog, tier))
     chk.guard('C05.o', lambda: rule_promote_expr(chk, prog, tier))
